@@ -13,7 +13,8 @@ from .core import TranslatorError
 
 OUTPUT = "CookiesGen.v"
 ITEMS = ["_MIN_SCHEDULED_COOKIE_EXPIRATION", "MAX_TIME", "max_age_deadline formula", "heap_cleanup_due formula",
-         "heap pop comparison", "clear() expiry comparison", "expires truthiness test", "secure schemes",
+         "heap pop comparison", "clear() expiry comparison", "expires truthiness test",
+         "invalid Max-Age falls through to Expires", "cookie-path prefix test", "secure schemes",
          "domain/path separators", "_is_domain_match shape", "is_ip_address shape", "_RELATIVE_EXPIRY_ATTRS"]
 
 CJ = "aiohttp/cookiejar.py"
@@ -159,6 +160,52 @@ def _expires_truthy():
     raise TranslatorError("update_cookies: unrecognised test on expire_time: " + ast.unparse(t))
 
 
+def _invalid_max_age_mode():
+    """update_cookies: does an unparseable Max-Age still let Expires apply?
+    'falls_through': `max_age_valid = False; if max_age := ...: try: ...; max_age_valid = True ...` followed by
+                     `if not max_age_valid and (expires := cookie["expires"]):`
+    'masks':         `if max_age := ...: ... elif expires := cookie["expires"]:`"""
+    fn = core.find_function(CJ, "update_cookies", cls="CookieJar")
+    tests = []
+    for n in ast.walk(fn):
+        if isinstance(n, ast.If):
+            for m in ast.walk(n.test):
+                if isinstance(m, ast.NamedExpr) and isinstance(m.target, ast.Name) and m.target.id == "expires":
+                    tests.append(n)
+    if len(tests) != 1:
+        raise TranslatorError("update_cookies: expected one `expires := cookie[...]` test")
+    t = ast.unparse(tests[0].test)
+    if t == "not max_age_valid and (expires := cookie['expires'])":
+        sets = [ast.unparse(n) for n in ast.walk(fn) if isinstance(n, ast.Assign) and ast.unparse(n.targets[0]) == "max_age_valid"]
+        if sorted(sets) != ["max_age_valid = False", "max_age_valid = True"]:
+            raise TranslatorError("update_cookies: max_age_valid is not assigned False once and True once")
+        # the True assignment must sit in the try body after the _expire_cookie call
+        for n in ast.walk(fn):
+            if isinstance(n, ast.Try):
+                body = [ast.unparse(x) for x in n.body]
+                if "max_age_valid = True" in body and body.index("max_age_valid = True") == len(body) - 1 \
+                        and any("_expire_cookie" in b for b in body):
+                    return "falls_through"
+        raise TranslatorError("update_cookies: `max_age_valid = True` is not the last statement of the Max-Age try body")
+    if t == "expires := cookie['expires']":
+        return "masks"
+    raise TranslatorError("update_cookies: unrecognised Expires test: " + t)
+
+
+def _path_test():
+    """filter_cookies: the cookie's own path must be a prefix of the request path."""
+    fn = core.find_function(CJ, "filter_cookies", cls="CookieJar")
+    found = [n for n in ast.walk(fn) if isinstance(n, ast.If) and "cookie['path']" in ast.unparse(n.test)]
+    if len(found) != 1:
+        raise TranslatorError("filter_cookies: expected exactly one test on cookie['path']")
+    n = found[0]
+    if ast.unparse(n.test) != "not request_url.path.startswith(cookie['path'])":
+        raise TranslatorError("filter_cookies: the cookie-path test is not `not request_url.path.startswith(cookie['path'])` but "
+                              + ast.unparse(n.test))
+    if not (len(n.body) == 1 and isinstance(n.body[0], ast.Continue) and not n.orelse):
+        raise TranslatorError("filter_cookies: the cookie-path test must `continue`")
+
+
 def _secure_schemes():
     fn = core.find_function(CJ, "filter_cookies", cls="CookieJar")
     found = []
@@ -208,6 +255,11 @@ def generate() -> str:
     mode = _expires_truthy()
     out.append("(* update_cookies: `if expire_time := self._parse_date(expires)` is a truthiness test *)\n"
                f"Definition expires_value_used (t : Z) : bool := {'negb (t =? 0)%Z' if mode == 'truthy' else 'true'}.\n")
+    mam = _invalid_max_age_mode()
+    out.append("(* update_cookies: with an unparseable Max-Age the Expires attribute still applies *)\n"
+               f"Definition invalid_max_age_uses_expires : bool := {'true' if mam == 'falls_through' else 'false'}.\n")
+    _path_test()
+    out.append("(* shape checked: filter_cookies skips a cookie unless request_url.path.startswith(cookie['path']) *)\n")
     sch = _secure_schemes()
     out.append("(* filter_cookies: schemes over which Secure cookies may be sent *)\n"
                "Definition secure_schemes : list (list N) := [" + "; ".join(core.coq_bytes(s) for s in sch) + "].\n")
